@@ -16,7 +16,9 @@ import (
 	"strconv"
 	"strings"
 	"sync"
+	"syscall"
 	"text/template"
+	"time"
 
 	"verif/internal/harness"
 )
@@ -84,26 +86,26 @@ type Req struct {
 }
 
 type Res struct {
-	Seq     int
-	OK      bool
-	Panic   string
-	Toks    []Tk
-	Max     *Tk
-	Err     string
-	ErrType string
-	Trace   []Ev
-	Events  []Ev
-	Shape   string
-	Sprint  string
-	Write   string
-	Stdout  string
-	PStdout string
-	End     int
-	Bad     []string
-	NRunes  int
-	LateErr []string
+	Seq       int
+	OK        bool
+	Panic     string
+	Toks      []Tk
+	Max       *Tk
+	Err       string
+	ErrType   string
+	Trace     []Ev
+	Events    []Ev
+	Shape     string
+	Sprint    string
+	Write     string
+	Stdout    string
+	PStdout   string
+	End       int
+	Bad       []string
+	NRunes    int
+	LateErr   []string
 	LateShape []string
-	Hist    []Res
+	Hist      []Res
 	// conc mode
 	Overlap    int
 	Calls      int
@@ -128,7 +130,8 @@ type Corpus struct {
 	raceMu                sync.Mutex
 	RaceReports           []string // stderr of children that printed "WARNING: DATA RACE"
 	Abandoned             int      // requests not run because their chunk's child had died three times
-	WatchdogHits          int      // children stopped by the wall-clock watchdog (inconclusive, never a violation)
+	WatchdogHits          int      // children stopped by the wall-clock watchdog or killed from outside (inconclusive, never a violation)
+	PeakMB                int      // largest resident set of any runner child (MB)
 }
 
 func New(env *harness.Env, peg string, race bool, tag string) *Corpus {
@@ -175,7 +178,15 @@ func (c *Corpus) Generate() {
 			cmd.Env = append(os.Environ(), "GORACE=atexit_sleep_ms=0")
 			var se bytes.Buffer
 			cmd.Stderr = &se
-			err := cmd.Run()
+			guard, err := harness.RunGuarded(cmd, 0, 0)
+			if guard.MemKilled {
+				se.WriteString(fmt.Sprintf("\nverif: peg exceeded the memory limit of %d MB and was killed (runaway allocation?)\n", harness.DefaultMemMB))
+			}
+			if guard.ExternalKill(0) {
+				c.raceMu.Lock()
+				c.WatchdogHits++
+				c.raceMu.Unlock()
+			}
 			j.GenStderr = se.String()
 			if err != nil {
 				j.GenExit = 1
@@ -302,6 +313,7 @@ type RunOpts struct {
 	WallSeconds int // watchdog; firing = inconclusive
 	Workers     int
 	GoRace      string // GORACE value for race builds
+	MemMB       int    // resident-memory cap per child (0 = harness.DefaultMemMB, x3 for race builds); exceeding it = runaway allocation
 }
 
 // Run executes the requests (split over Workers child processes) and returns results aligned with reqs.
@@ -399,14 +411,26 @@ func (c *Corpus) runChunk(reqs []Req, res []Res, chunk []int, o RunOpts, w int) 
 		}
 		bw.Flush()
 		f.Close()
-		sh := fmt.Sprintf("ulimit -t %d; exec timeout -s QUIT %d %s %s %s %s > /dev/null 2> %s", o.CPUSeconds, o.WallSeconds, c.runner, reqF, outF, progF, errF)
+		sh := fmt.Sprintf("ulimit -t %d; exec %s %s %s %s > /dev/null 2> %s", o.CPUSeconds, c.runner, reqF, outF, progF, errF)
 		cmd := exec.Command("bash", "-c", sh)
 		gorace := o.GoRace
 		if gorace == "" {
 			gorace = "atexit_sleep_ms=0 halt_on_error=0 exitcode=0"
 		}
 		cmd.Env = append(os.Environ(), "GORACE="+gorace, "GOTRACEBACK=single")
-		runErr := cmd.Run()
+		memMB := o.MemMB
+		if memMB <= 0 {
+			memMB = harness.DefaultMemMB
+			if c.Race {
+				memMB *= 3 // the race detector's shadow memory
+			}
+		}
+		guard, runErr := harness.RunGuarded(cmd, memMB, time.Duration(o.WallSeconds)*time.Second)
+		c.raceMu.Lock()
+		if guard.PeakMB > c.PeakMB {
+			c.PeakMB = guard.PeakMB
+		}
+		c.raceMu.Unlock()
 		// read results
 		done := map[int]bool{}
 		badLine := ""
@@ -475,9 +499,18 @@ func (c *Corpus) runChunk(reqs []Req, res []Res, chunk []int, o RunOpts, w int) 
 			return fmt.Errorf("runner died (exit %d) outside any request: %s", code, stderrTail)
 		}
 		why := fmt.Sprintf("child process died (exit status %d) while processing this request", code)
-		if code == 124 || code == 137 && strings.Contains(stderrTail, "SIGQUIT") {
+		if guard.Signaled {
+			why = fmt.Sprintf("child process died (%v) while processing this request", guard.Signal)
+		}
+		cpuLimit := time.Duration(o.CPUSeconds) * time.Second
+		switch {
+		case guard.WallKilled:
 			why = "WATCHDOG: wall-clock limit hit (inconclusive)"
-		} else if code == 137 || code == 152 || strings.Contains(stderrTail, "SIGXCPU") || strings.Contains(stderrTail, "signal: killed") {
+		case guard.MemKilled:
+			why = fmt.Sprintf("memory limit of %d MB exceeded while processing this request (runaway allocation?)", memMB)
+		case guard.ExternalKill(cpuLimit):
+			why = "WATCHDOG: the child was killed from outside (SIGKILL not sent by this check and not explained by its CPU limit: the kernel's OOM killer under other workloads?) (inconclusive)"
+		case guard.Signaled && (guard.Signal == syscall.SIGXCPU || guard.Signal == syscall.SIGKILL) || code == 152 || strings.Contains(stderrTail, "SIGXCPU"):
 			why = fmt.Sprintf("CPU limit of %d s exceeded on one request list (non-termination?)", o.CPUSeconds)
 		}
 		if strings.HasPrefix(why, "WATCHDOG") {
